@@ -1,0 +1,54 @@
+//go:build verif
+
+// Contracts for the deductive verifier in /verif (govc). This file contains no
+// executable code: only the package clause and //@ comment lines, keyed by
+// function name and loop ordinal. It is compiled only with -tags verif.
+
+package index
+
+// ---------------------------------------------------------------------------
+// C03: newlines
+// ---------------------------------------------------------------------------
+
+//@ pure func okNL(nls newlines) bool = (forall a, b int :: 0 <= a && a < b && b < len(nls.locs) ==> nls.locs[a] < nls.locs[b]) && (forall a int :: 0 <= a && a < len(nls.locs) ==> nls.locs[a] < nls.fileSize)
+
+//@ func index.(newlines).lineStart
+//@   requires okNL(nls)
+//@   ensures lineNumber <= 1 ==> result == 0
+//@   ensures 2 <= lineNumber && lineNumber <= len(nls.locs)+1 ==> result == nls.locs[lineNumber-2]+1
+//@   ensures lineNumber > len(nls.locs)+1 ==> result == nls.fileSize
+//@   ensures result <= nls.fileSize
+//@   assigns nothing
+
+//@ func index.(newlines).atOffset
+//@   requires okNL(nls)
+//@   ensures 1 <= lineNumber && lineNumber <= len(nls.locs)+1
+//@   ensures forall k int :: 0 <= k && k < lineNumber-1 ==> nls.locs[k] < offset
+//@   ensures forall k int :: lineNumber-1 <= k && k < len(nls.locs) ==> nls.locs[k] >= offset
+//@   assigns nothing
+
+//@ func index.(newlines).getLines
+//@   requires okNL(nls) && nls.fileSize == len(data)
+//@   ensures low >= high ==> result == nil
+//@   ensures low < high ==> result == data[lineStartSpec(nls, low):lineStartSpec(nls, high)]
+//@   assigns nothing
+
+//@ pure func lineStartSpec(nls newlines, n int) int = ite(n <= 1, 0, ite(n > len(nls.locs)+1, nls.fileSize, nls.locs[n-2]+1))
+
+// ---------------------------------------------------------------------------
+// C37: ctags sections
+// ---------------------------------------------------------------------------
+
+//@ pure func okSecs(s []DocumentSection) bool = (forall a int :: 0 <= a && a < len(s) ==> s[a].Start <= s[a].End) && (forall a, b int :: 0 <= a && a < b && b < len(s) ==> s[a].End <= s[b].Start)
+
+//@ func index.overlaps
+//@   requires okSecs(symOffsets) && start <= end
+//@   loop 1:
+//@     invariant -1 <= i && i <= len(symOffsets)-1
+//@     invariant forall k int :: i < k && k < len(symOffsets) ==> end <= symOffsets[k].Start
+//@     decreases i + 1
+//@   ensures result == -1 || (0 <= result && result <= len(symOffsets))
+//@   ensures result >= 0 ==> (forall k int :: 0 <= k && k < result ==> symOffsets[k].End <= start)
+//@   ensures result >= 0 ==> (forall k int :: result <= k && k < len(symOffsets) ==> end <= symOffsets[k].Start)
+//@   ensures result == -1 ==> (exists k int :: 0 <= k && k < len(symOffsets) && start < symOffsets[k].End && symOffsets[k].Start < end)
+//@   assigns nothing
